@@ -1,7 +1,7 @@
 from common import COMMON_TB
 
 PROP = {
-    "suites": ["c19", "scn-mount", "scn-struct"],
+    "suites": ["c19", "scn-directed", "scn-mount", "scn-struct"],
     "lean_modules": ["Lc.Props.C19"],
     "leanchecker": True,
     "trusted_base": COMMON_TB + [
